@@ -33,19 +33,19 @@ NOT_APPLICABLE = {("C%02d" % i): NOT_YET for i in range(1, 21)}
 PROPS = {
     "C01": dict(
         pkg="c01", units=[rapid("TestProp", 45000, 200000), fuzz("FuzzApply", 90)], assumptions=COMMON_ASSUME,
-        technique="property-based testing (rapid): state-aware generated operation sequences vs an independent RFC 6902 reference evaluator",
+        technique="property-based testing (rapid): state-aware generated operation sequences vs an independent RFC 6902 reference evaluator; coverage-guided native fuzzing of the same oracle over raw bytes in the thorough tier",
         level_text="Generated-input search: every generated (document, operation sequence, SupportNegativeIndices) is evaluated by an independent RFC 6902 model in the documented dialect and by DecodePatch+ApplyWithOptions; success/failure must agree and on success the output, read by an independent literal-preserving JSON reader, must equal the model's document. Exploration, not proof: it bounds what was tried (counts, classes and samples are in the evidence).",
         level_note="Trusted: the reference evaluator and JSON reader in harness/ref, rapid, the Go toolchain. Domain exclusions are exactly those of the property's quantifier and are counted in the evidence.",
     ),
     "C05": dict(
         pkg="c05", units=[rapid("TestProp", 36000, 150000), rapid("TestPropEmpty", 24000, 100000), rapid("TestPropMerge", 30000, 150000), fuzz("FuzzOrder", 60)], assumptions=COMMON_ASSUME,
-        technique="property-based testing (rapid): ordered, literal-exact comparison with the reference evaluator; order-validity predicate for MergePatch",
+        technique="property-based testing (rapid): ordered, literal-exact comparison with the reference evaluator; order-validity predicate for MergePatch; coverage-guided native fuzzing of the same oracle over raw bytes in the thorough tier",
         level_text="Generated-input search: Apply outputs are compared member-order- and literal-exactly with the ordered reference result (the model implements the stated order rules), the empty patch must reproduce the input in any spelling, and MergePatch outputs must satisfy the order predicate and carry every number literal. Exploration over generated documents with exotic literals and busy objects; no proof.",
         level_note="Trusted: harness/ref (ordered tree, literal-preserving reader), rapid, Go toolchain. Order among members newly added by MergePatch is unspecified and not asserted.",
     ),
     "C08": dict(
         pkg="c08", units=[rapid("TestProp", 45000, 200000), fuzz("FuzzFail", 60)], assumptions=COMMON_ASSUME,
-        technique="property-based testing (rapid): injected inapplicable operations, cause classes from an option-aware reference evaluator checked against errors.Is/As; metamorphic suffix-irrelevance",
+        technique="property-based testing (rapid): injected inapplicable operations, cause classes from an option-aware reference evaluator checked against errors.Is/As; metamorphic suffix-irrelevance; coverage-guided native fuzzing of the same oracle over raw bytes in the thorough tier",
         level_text="Generated-input search: each case holds an operation built to be inapplicable at a random position; the option-aware model names the first failing operation and its cause class, and the library must return (nil, err) with errors.Is(ErrTestFailed) / *AccumulatedCopySizeError exactly for the matching causes, ErrMissing for absent members and unreachable parents, and the same error when the suffix is cut off. Inputs come mostly in the encoder's own spelling and partly in other spellings; for those, copy sizes are measured in the outputs of the patch prefixes instead of modelled. Exploration only.",
         level_note="Trusted: harness/ref evaluator incl. its model of AllowMissingPathOnRemove, EnsurePathExistsOnAdd (clear domain only) and copy sizes; when an operation has two independent reasons to fail either classification is accepted.",
     ),
@@ -58,43 +58,43 @@ PROPS = {
     ),
     "C13": dict(
         pkg="c13", units=[rapid("TestProp", 45000, 200000), fuzz("FuzzAllowMissing", 60)], assumptions=COMMON_ASSUME,
-        technique="property-based testing (rapid): metamorphic relation (option on, P) == (option off, P minus skipped removes) with the skipped set computed by the reference evaluator",
+        technique="property-based testing (rapid): metamorphic relation (option on, P) == (option off, P minus skipped removes) with the skipped set computed by the reference evaluator; coverage-guided native fuzzing of the same oracle over raw bytes in the thorough tier",
         level_text="Generated-input search over remove-heavy sequences: the reference marks the removes whose target or ancestor is absent; applying P with the option must equal applying P without those removes and without the option (same outcome, same error class, same ordered document = the model's). Exploration only.",
         level_note="Trusted: harness/ref. Negative last tokens while negative indices are off, '-'/non-numeric tokens on arrays and remove of \"\" are outside the stated domain and excluded (counted).",
     ),
     "C14": dict(
         pkg="c14", units=[rapid("TestProp", 45000, 200000), fuzz("FuzzEnsure", 60)], assumptions=COMMON_ASSUME,
-        technique="property-based testing (rapid): generated extension paths vs a reference ensure+add model, ordered comparison, independent pointer lookup, agreement with plain add",
+        technique="property-based testing (rapid): generated extension paths vs a reference ensure+add model, ordered comparison, independent pointer lookup, agreement with plain add; coverage-guided native fuzzing of the same oracle over raw bytes in the thorough tier",
         level_text="Generated-input search: an existing container path is extended by generated tokens (escaped names, indices, '-'); the output must equal the reference ensure+add result including member order (frame condition and 'nothing but path and padding' in one comparison), the value must be found at the path by an independent lookup, and the result must equal plain add's whenever plain add succeeds. Judged only in the property's clear domain. Exploration only.",
         level_note="Trusted: harness/ref ensure model. Excluded and counted: null/scalar on the path, names addressed into arrays, last index beyond an existing array, negative and non-canonical indices, '-' before the last token.",
     ),
     "C15": dict(
         pkg="c15", units=[rapid("TestProp", 18000, 80000), rapid("TestPropWF", 18000, 80000), fuzz("FuzzWellFormed", 60)], assumptions=COMMON_ASSUME,
-        technique="property-based testing (rapid): strict RFC 8259 recogniser + UTF-8 + value round trip on every output; metamorphic relations EscapeHTML on/off, ApplyIndent vs re-indented Apply (encoding/json.Indent differential), inserted passing tests",
+        technique="property-based testing (rapid): strict RFC 8259 recogniser + UTF-8 + value round trip on every output; metamorphic relations EscapeHTML on/off, ApplyIndent vs re-indented Apply (encoding/json.Indent differential), inserted passing tests; coverage-guided native fuzzing of the same oracle over raw bytes in the thorough tier",
         level_text="Generated-input search over documents whose names and strings hold the HTML-sensitive characters: every successful output of the five functions must be one RFC 8259 text in valid UTF-8 denoting the reference value; the on/off outputs must differ in spelling only, obey the two escaping clauses, ApplyIndent / ApplyIndentWithOptions must equal an independent re-indentation of Apply / ApplyWithOptions byte for byte under both settings, and inserted passing tests must not change a byte. Exploration only.",
         level_note="Trusted: harness/ref recogniser and canonical writer, encoding/json.Indent of the default toolchain (cross-checked by an independent re-indenter). The byte-identity clauses are asserted only for inputs in the encoder's own spelling, as the quantifier states.",
     ),
     "C02": dict(
         pkg="c02", units=[rapid("TestProp", 60000, 300000), fuzz("FuzzMerge", 60)], assumptions=COMMON_ASSUME,
-        technique="property-based testing (rapid): generated (document, merge patch) pairs vs the RFC 7396 reference algorithm",
+        technique="property-based testing (rapid): generated (document, merge patch) pairs vs the RFC 7396 reference algorithm; coverage-guided native fuzzing of the same oracle over raw bytes in the thorough tier",
         level_text="Generated-input search: documents and merge patches (mutations of the document so that recursion, deletion and type change at depth happen; nulls at every depth, also in objects nested inside arrays; all root types) are merged by MergePatch and by the five-line RFC 7396 algorithm on an independent tree; results must be structurally equal with number literals intact. Exploration only.",
         level_note="Trusted: harness/ref Merge and reader. Null documents and duplicate member names are outside the domain.",
     ),
     "C03": dict(
         pkg="c03", units=[rapid("TestProp", 45000, 250000), rapid("TestPropArr", 18000, 80000), rapid("TestPropReject", 15000, 60000), fuzz("FuzzCreate", 60)], assumptions=COMMON_ASSUME,
-        technique="property-based testing (rapid): round trip create -> apply through the RFC 7396 reference and through the library, plus a minimality validity predicate; generated rejection pairs",
+        technique="property-based testing (rapid): round trip create -> apply through the RFC 7396 reference and through the library, plus a minimality validity predicate; generated rejection pairs; coverage-guided native fuzzing of the same oracle over raw bytes in the thorough tier",
         level_text="Generated-input search: for object pairs (B a mutation of A, built without null members) and equal-length arrays of such pairs, the created patch must reproduce B through the reference merge and the library's MergePatch, be {} iff A=B, and pass a walk that checks every mentioned member differs, removals are nulls, nested objects hold the recursive difference and number literals are B's; pairs of other roots must be rejected. Exploration only.",
         level_note="Trusted: harness/ref. B with a null-valued member, numerically-equal-but-differently-spelled numbers, null roots and null elements are outside the stated domain (excluded, counted).",
     ),
     "C06": dict(
         pkg="c06", units=[rapid("TestProp", 75000, 400000), rapid("TestPropTriple", 30000, 150000), rapid("TestPropMalformed", 45000, 200000), fuzz("FuzzEqual", 60)], assumptions=COMMON_ASSUME,
-        technique="property-based testing (rapid): re-serialised / one-edit / independent pairs vs structural equality on an independent tree; equivalence-relation laws on pairs and triples; malformed inputs",
+        technique="property-based testing (rapid): re-serialised / one-edit / independent pairs vs structural equality on an independent tree; equivalence-relation laws on pairs and triples; malformed inputs; coverage-guided native fuzzing of the same oracle over raw bytes in the thorough tier",
         level_text="Generated-input search: pairs that are equal up to member order, whitespace and escaping, pairs one small edit apart (null<->absent, {}<->[]<->null, renamed member, swapped elements...) and independent pairs are judged by Equal and by structural equality on the independent tree; symmetry, reflexivity and (on triples) transitivity are checked; malformed arguments must give false. Exploration only.",
         level_note="Trusted: harness/ref reader and Equal. Pairs with numerically-equal-but-differently-spelled numbers, lone surrogate escapes, invalid UTF-8 or duplicate names are excluded.",
     ),
     "C07": dict(
         pkg="c07", units=[rapid("TestProp", 45000, 200000), fuzz("FuzzCompose", 60)], assumptions=COMMON_ASSUME,
-        technique="property-based testing (rapid): composition law checked through the RFC 7396 reference and through the library's own MergePatch",
+        technique="property-based testing (rapid): composition law checked through the RFC 7396 reference and through the library's own MergePatch; coverage-guided native fuzzing of the same oracle over raw bytes in the thorough tier",
         level_text="Generated-input search over triples (D, P1, P2) with P2 mostly a mutation of P1 and nulls at every depth: applying MergeMergePatches(P1,P2) must equal applying P1 then P2, via the reference algorithm and via the library; a non-object P2 must come back as the combined patch. Incompatible pairs are excluded by the property's own condition. Exploration only.",
         level_note="Trusted: harness/ref Merge. The compatibility condition is computed by the harness exactly as the statement gives it.",
     ),
@@ -120,13 +120,13 @@ PROPS = {
     ),
     "C11": dict(
         pkg="c11", units=[rapid("TestProp", 60000, 200000), plain("TestTable", shards=dict(quick=1, thorough=1)), fuzz("FuzzDecode", 60)], assumptions=COMMON_ASSUME,
-        technique="property-based testing (rapid) over member mutations of valid patches plus an exhaustively enumerated single-mutation table; independent validator as oracle",
+        technique="property-based testing (rapid) over member mutations of valid patches plus an exhaustively enumerated single-mutation table; independent validator as oracle; coverage-guided native fuzzing of the same oracle over raw bytes in the thorough tier",
         level_text="Generated-input search plus a complete table of single mutations (kind x member x {delete, null, retype, rename, duplicate} and element/root/op-string changes): DecodePatch must accept exactly what the independent reader and validator accept, return a nil Patch on reject, and the accessors must return the decoded members (numbers by literal). Exploration; the table is complete for single mutations of the listed kinds only.",
         level_note="Trusted: harness/ref reader and the validator in c11 (written from the property statement). Duplicated members whose first and last occurrence disagree are ambiguous and excluded; the text null is outside the domain.",
     ),
     "C18": dict(
         pkg="c18", units=[rapid("TestProp", 45000, 200000), fuzz("FuzzLegacyApply", 60)], assumptions=COMMON_ASSUME + ["the legacy root package is staged from /repo's working tree as module github.com/evanphx/json-patch (it has no go.mod of its own)"],
-        technique="property-based testing (rapid): the C01 generator and RFC 6902 reference evaluator against the staged legacy package, restricted to what v4 claims",
+        technique="property-based testing (rapid): the C01 generator and RFC 6902 reference evaluator against the staged legacy package, restricted to what v4 claims; coverage-guided native fuzzing of the same oracle over raw bytes in the thorough tier",
         level_text="Generated-input search against a staged copy of the root package: all-applicable patches must succeed with the RFC result up to member order and with number literals intact; a first failure that is a failed test, a remove/move of an absent location, an out-of-range or negative-while-off index must give an error and no document. Exploration only.",
         level_note="Trusted: harness/ref. Excluded (counted): root-replacing add, copy from \"\", test values whose strings need escaping or hold <,>,&, and first failures v4 does not claim to report (e.g. replace/copy of an absent member, which v4 accepts).",
     ),
